@@ -232,8 +232,12 @@ def build_program(rng, nstmts, real=True):
             # call statement and rejects subscripted / looped left-hand sides there; keep it an expression
             k[3] = ["nary", "sum", [k[3], ["int", 1]]]
             k = lang.kind_from_real(lang.kind_to_real(k))
-        add_real(cb, k)
-        prog.append(["stmt", k])
+        call = ["stmt", k, "text"] if rng.random() < 0.3 and textable(k) else ["stmt", k]
+        try:
+            add_call(cb, call)
+        except Exception as ex:  # noqa: BLE001
+            raise BuilderFailure(prog + [call], ex) from ex
+        prog.append(call)
         budget[0] -= 1
 
     def block(depth, min_stmts):
@@ -242,9 +246,13 @@ def build_program(rng, nstmts, real=True):
             c = rng.random()
             if c < 0.22 and depth < 3 and budget[0] >= 2:
                 cnd = cond()
-                ctx = cb.if_(lang.to_pym(cnd))
-                ctx.__enter__()
-                prog.append(["if", cnd])
+                call = ["if", cnd, if_form(rng, cnd)]
+                try:
+                    ctx = open_if(cb, call)
+                    ctx.__enter__()
+                except Exception as ex:  # noqa: BLE001
+                    raise BuilderFailure(prog + [call], ex) from ex
+                prog.append(call)
                 budget[0] -= 1
                 block(depth + 1, 1)
                 ctx.__exit__(None, None, None)
@@ -272,6 +280,85 @@ def build_program(rng, nstmts, real=True):
     while budget[0] > 0:
         block(0, 1)
     return prog, cb
+
+
+def _atom_text(e):
+    """text of an operand that certainly prints and parses back to itself, or None"""
+    if e[0] == "var" and not e[1].startswith("<cond>"):
+        return e[1]
+    if e[0] == "int" and e[1] >= 0:
+        return str(e[1])
+    return None
+
+
+def if_form(rng, cnd):
+    """how the condition is handed to CodeBuilder.if_: as an expression object, as one string, or as the
+    three arguments (lhs, comparison operator, rhs) with lhs/rhs given as strings or numbers"""
+    if cnd[0] == "bin" and cnd[1] in lang.CMP and _atom_text(cnd[2]) and _atom_text(cnd[3]) and rng.random() < 0.5:
+        return rng.choice(["str1", "str3", "str3"])
+    return "expr"
+
+
+def open_if(cb, c):
+    """cb.if_(...) for the recorded call c = ["if", condition] or ["if", condition, form]"""
+    form = c[2] if len(c) > 2 else "expr"
+    cnd = c[1]
+    if form == "str1":
+        return cb.if_("%s %s %s" % (_atom_text(cnd[2]), lang.CMP[cnd[1]], _atom_text(cnd[3])))
+    if form == "str3":
+        rhs = cnd[3][1] if cnd[3][0] == "int" else _atom_text(cnd[3])      # a number stays a number
+        return cb.if_(_atom_text(cnd[2]), lang.CMP[cnd[1]], rhs)
+    return cb.if_(lang.to_pym(cnd))
+
+
+def roundtrips(e):
+    """does the expression print and parse back to itself (so that it may be handed to the builder as text)?"""
+    from dagrt.expression import parse
+    try:
+        pe = lang.to_pym(e)
+        return lang.from_pym(parse(str(pe))) == e
+    except Exception:  # noqa: BLE001
+        return False
+
+
+def textable(k):
+    """may the statement be handed to the builder with its expressions as strings?"""
+    if k[0] == "assign":
+        es = [k[3]] + ([k[2]] if k[2] is not None else []) + [b for _, lo, hi in k[4] for b in (lo, hi)]
+        lhs = ["var", k[1]] if k[2] is None else ["bin", "sub", ["var", k[1]], k[2]]
+        return all(roundtrips(e) for e in es + [lhs]) and k[3][0] != "call"
+    if k[0] == "call":
+        return roundtrips(["call", k[2], k[3], k[4]]) and all(roundtrips(["var", x]) for x in k[1]) and len(k[1]) >= 1
+    if k[0] == "yield":
+        return roundtrips(k[4])
+    return False
+
+
+def add_real_text(cb, k):
+    """the same builder call with every expression given as a string"""
+    t = k[0]
+    if t == "assign":
+        lhs = str(lang.to_pym(["var", k[1]] if k[2] is None else ["bin", "sub", ["var", k[1]], k[2]]))
+        loops = [(i, str(lang.to_pym(lo)), str(lang.to_pym(hi))) for i, lo, hi in k[4]]
+        if loops:
+            cb.assign(lhs, str(lang.to_pym(k[3])), loops=loops)
+        else:
+            cb(lhs, str(lang.to_pym(k[3])))             # CodeBuilder.__call__ is assign
+    elif t == "call":
+        lhs = tuple(str(lang.to_pym(["var", x])) for x in k[1])
+        cb.assign(lhs if len(lhs) > 1 else lhs[0], str(lang.to_pym(["call", k[2], k[3], k[4]])))
+    elif t == "yield":
+        cb.yield_state(str(lang.to_pym(k[4])), k[1], lang.to_pym(k[3]), k[2])
+    else:
+        add_real(cb, k)
+
+
+def add_call(cb, c):
+    """carry out the recorded builder call c = ["stmt", kind] or ["stmt", kind, "text"]"""
+    if len(c) > 2 and c[2] == "text":
+        add_real_text(cb, c[1])
+    else:
+        add_real(cb, c[1])
 
 
 def add_real(cb, k):
@@ -306,9 +393,9 @@ def replay_program(prog):
     stack = []
     for c in prog:
         if c[0] == "stmt":
-            add_real(cb, c[1])
+            add_call(cb, c)
         elif c[0] == "if":
-            ctx = cb.if_(lang.to_pym(c[1]))
+            ctx = open_if(cb, c)
             ctx.__enter__()
             stack.append(ctx)
         elif c[0] in ("endif", "endelse"):
